@@ -117,8 +117,12 @@ func decryptOriginTokenRequest(nameKey PrivateEncapKey, requestKey []byte, encry
 	b.AddBytes(issuerConfigID[:])
 	aad := b.BytesOrPanic()
 
-	enc := encryptedTokenRequest[0:nameKey.suite.KEM.PublicKeySize()]
-	ct := encryptedTokenRequest[nameKey.suite.KEM.PublicKeySize():]
+	encLen := nameKey.suite.KEM.PublicKeySize()
+	if len(encryptedTokenRequest) < encLen {
+		return InnerTokenRequest{}, nil, fmt.Errorf("invalid encrypted token request")
+	}
+	enc := encryptedTokenRequest[0:encLen]
+	ct := encryptedTokenRequest[encLen:]
 
 	context, err := hpke.SetupBaseR(nameKey.suite, nameKey.privateKey, enc, []byte("TokenRequest"))
 	if err != nil {
